@@ -16,7 +16,7 @@ LEVEL = "exploration"
 BUDGET = {"quick": 480, "thorough": 48000}
 TECHNIQUE = "stateful model-based testing (Hypothesis RuleBasedStateMachine) with an in-memory content model; every kind-sequence of length <= 2 enumerated explicitly; histories saved as JSON and replayed without Hypothesis"
 RULE = ("Hypothesis rule-based state machine over a pool of plotfiles: initialize = generated 3D plotfile (1-3 levels, "
-        "any layout, non-zero origin, anisotropic, special floats); rules = colander(src, vars, limit), chef(src, "
+        "any layout, non-zero origin, anisotropic, special floats) or, 1 in 6, the output of chk2plt on a generated checkpoint; rules = colander(src, vars, limit), chef(src, "
         "generated user recipe, kept, serial/parallel), combine(a, b) with b drawn from the plotfiles derived from the "
         "same root with the same level count, and the two named laws (combine(x, chef(x, r)) == x + new fields; "
         "colander(x, all, finest) == x) as dedicated rules; up to 4 operations per history. After every step: taste "
@@ -88,6 +88,36 @@ def apply_op(w, op):
             model = common.Model.from_ref(ref)
             w.add(name, model, len(w.items))
             w.verify(name, model, op)
+            return True
+        if kind == "gen_chk":
+            # a plotfile written by chk2plt is itself a well-formed input: its model is the checkpoint's interior state
+            import sys
+            from .. import chkgen
+            chk = chkgen.Checkpoint(op["chk"])
+            chkgen.write(chk, f"chk_{name}")
+            c2p = sys.modules["amr_kitchen.chk2plt.chk2plt"]
+            sp = chkgen.SPECIES_POOL[:chk.nspec]
+            qcall(c2p.chk2plt, f"chk_{name}", species=sp, gradp=True, species_reactions=False, floor_massfracs=False, pltdir=name)
+            fields = ["x_velocity", "y_velocity", "z_velocity", "density"] + [f"Y({x})" for x in sp] + ["rhoh", "temp", "RhoRT", "gradpx", "gradpy", "gradpz"]
+            levels = []
+            for l in range(chk.nlev):
+                d = {}
+                for b, (lo, hi) in enumerate(chk.levels[l]["boxes"]):
+                    d[(tuple(lo), tuple(hi))] = dict(phys=None, data=np.concatenate([chk.interior("state", l, b), chk.data("gradp", l, b)], axis=-1),
+                                                     mins=None, maxs=None)
+                levels.append(d)
+            out, msgs = common.read_output(name)
+            if out is None:
+                w.violations += [f"step {w.steps + 1} {dict(op='gen_chk')}: {m}" for m in msgs]
+                return True
+            # geometry is adopted from the written plotfile (C17 checks it against the checkpoint); contents come from the model
+            for l, lev in enumerate(levels):
+                for b, (lo, hi) in enumerate(out["levels"][l]["idx"]):
+                    if (tuple(lo), tuple(hi)) in lev:
+                        lev[(tuple(lo), tuple(hi))]["phys"] = out["levels"][l]["phys"][b]
+            model = common.Model(fields, 3, out["time"], out["geo_lo"], out["geo_hi"], out["dx"], out["grid_sizes"], levels)
+            w.add(name, model, len(w.items))
+            w.verify(name, model, dict(op="gen_chk"))
             return True
         if kind in ("colander", "law_identity"):
             src = w.pick(op["src"])
@@ -193,7 +223,7 @@ def check_case(case, ctx):
     for op in case["history"]:
         before = len(w.items)
         ok = apply_op(w, op)
-        if ok and op["op"] != "gen":
+        if ok and op["op"] not in ("gen", "gen_chk"):
             applied += 1
             srcs = [op.get(k) for k in ("src", "a") if k in op]
             if any(s is not None and (s % before) in produced_by_step for s in srcs) or op["op"] == "law_cook_combine":
@@ -207,14 +237,23 @@ def check_case(case, ctx):
 
 
 def compact(case):
-    return [dict((k, v) for k, v in op.items() if k != "spec") if op["op"] != "gen" else dict(op="gen", mesh=op["spec"]["mesh"], fields=op["spec"]["fields"]) for op in case["history"]]
+    def c(op):
+        if op["op"] == "gen":
+            return dict(op="gen", mesh=op["spec"]["mesh"], fields=op["spec"]["fields"])
+        if op["op"] == "gen_chk":
+            return dict(op="gen_chk", mesh=op["chk"]["mesh"], nspec=op["chk"]["nspec"])
+        return dict(op)
+    return [c(op) for op in case["history"]]
 
 
 # --------------------------------------------------------------------------- strategies for operations
 
 def gen_ops():
-    return plotgen.plot_specs(ndims=3, max_cells=1200, min_fields=2, max_fields=4,
-                              payload_kinds=("coded", "random", "special")).map(lambda s: dict(op="gen", spec=s))
+    from .. import chkgen
+    plain = plotgen.plot_specs(ndims=3, max_cells=1200, min_fields=2, max_fields=4,
+                               payload_kinds=("coded", "random", "special")).map(lambda s: dict(op="gen", spec=s))
+    from_chk = chkgen.chk_specs("quick").map(lambda c: dict(op="gen_chk", chk=c))
+    return st.one_of(plain, plain, plain, plain, plain, from_chk)
 
 
 idx = st.integers(0, 30)
